@@ -70,7 +70,7 @@ CHECKS = {
     design="4/C09", technique=TECH),
  "C11": dict(
     text="Geometry!NearestSet is the exact rational floor(left + (x+1/2) w/n) with both neighbours at an exact tie; MC_Geometry checks index-inside-source for all geometries up to 6 "
-         "pixels on the quarter-pixel grid, GeomLemmas!NearestInside proves it for all sizes < 2^16 (Apalache). Conformance: identity-tagged sources of all 13 types, edge-flush and "
+         "pixels on the quarter-pixel grid, GeomLemmas!NearestInside proves it for all sizes < 2^16 (Apalache), proofs/NearestProof for all naturals and every grid (TLAPS, machine-checked on every run). Conformance: identity-tagged sources of all 13 types, edge-flush and "
          "sub-pixel crops, 1-pixel sources, ratios to 1:200, buffers flush against guard pages; TLC checks every destination pixel is a bit-exact copy of a candidate source pixel and that the "
          "hook trace is Call, Dispatch, Nearest, Ret (no alpha phase).",
     note="Crop coordinates are dyadic (quarter pixels) so that the code's f64 arithmetic is exact away from ties.", design="4/C11", technique=TECH + "; Apalache lemma"),
@@ -151,7 +151,7 @@ m = {"version": 1,
                "source_commits": ["ef02d83", "927d2c0", "2fbaacf", "6d53a32"], "add_only": True},
      "engines": [{"name": "tlc", "path": "/usr/local/bin/tlc", "serves_properties": sorted(CHECKS), "kind_free_text": "TLA+ explicit-state model checker (model checks and trace validation)"},
                  {"name": "apalache", "path": "/usr/local/bin/apalache-mc", "serves_properties": sorted(CHECKS), "kind_free_text": "symbolic checker for arithmetic lemmas over full machine ranges"},
-                 {"name": "tlapm", "path": "/usr/local/bin/tlapm", "serves_properties": ["C14"], "kind_free_text": "TLA+ proof system: unbounded proof of the band arithmetic"},
+                 {"name": "tlapm", "path": "/usr/local/bin/tlapm", "serves_properties": ["C03", "C11", "C14"], "kind_free_text": "TLA+ proof system: unbounded proofs of the band arithmetic and of nearest-index-inside-source"},
                  {"name": "firv", "path": "/verif/harness", "serves_properties": sorted(CHECKS), "kind_free_text": "Rust conformance harness: executes cases against the real library and records traces (no oracle)"}],
      "checks": [], "not_applicable": [],
      "notes": "One entry point: ./check <ID> --tier quick|thorough. Exit 0 held, 1 VIOLATION, 2 tool failure. Known findings: known_findings.json."}
